@@ -213,6 +213,12 @@ def rand_text(rng, stringify_defined):
             return {"k": "text", "tag": "comment-block-closed-at-line-start", "rich": False, "join": "bc0",
                     "segs": [rng.choice([[Id("a"), WS], []]), rng.choice([[WS, Id(rng.choice(["M1", "b"]))], []])]}
         return {"k": "text", "tag": "comment-block-multiline", "rich": False, "join": "bc", "segs": [[Id("a"), WS], [WS, Id(rng.choice(["M1", "b"]))]]}
+    if ch < 0.935:
+        # the continued line starts (in column 0) with a string, a comment or another continuation
+        head = rng.choice([[Str(rng.choice(["a // b", "x /* y", "M1"])), WS, Id(rng.choice(["M1", "b"]))],
+                           [{"k": "lc", "s": rng.choice(["// M1", "// \""])}],
+                           [{"k": "bc", "s": rng.choice(["/* M1 */", "/* \" */"])}, WS, Id(rng.choice(["M1", "b"]))]])
+        return {"k": "text", "tag": "continuation-then-" + head[0]["k"], "rich": False, "join": "bs", "segs": [[Id("a"), WS, Id(rng.choice(["M1", "c"])), WS], head]}
     if ch < 0.95:
         w = rng.choice(["M1", "M2", "foo"])
         return {"k": "text", "tag": "continuation-in-word", "rich": False, "join": "bs", "segs": [[Id("a"), WS, Id(w[:1])], [Id(w[1:]), WS, Id("b")]]}
@@ -291,6 +297,11 @@ def probes():
         [selfinc, use],                                                   # genuine cycles: must be refused
         [c1],
         [d_m1, text("use-obj-before-string", False, [Id("M1"), Str("s")])],
+        # a continued line that starts with a string / a comment / a second continuation; also as the body of a definition
+        [d_m1, {"k": "text", "tag": "continuation-then-str", "rich": False, "join": "bs", "segs": [[Id("x"), WS, P("="), WS], [Str("http://M1 // c"), P(";"), WS, {"k": "lc", "s": "// M1"}]]}],
+        [d_m1, {"k": "text", "tag": "continuation-then-lc", "rich": False, "join": "bs", "segs": [[Id("M1"), WS, P("+"), WS], [{"k": "lc", "s": "// gone \""}]]}, text("plain", False, [Id("M1"), P(";")])],
+        [d_m1, {"k": "text", "tag": "continuation-twice", "rich": False, "join": "bs", "segs": [[Id("a"), WS], [], [Str("// s"), WS, Id("M1")]]}],
+        [{"k": "defobj", "tag": "def-obj-continued-string", "rich": False, "name": "M2", "segs": [[], [Str("u://v"), WS, {"k": "lc", "s": "// home"}]]}, text("use-obj", False, [Id("x"), WS, Id("M2"), P(";")])],
         # a parameter spelled like a defined macro: the body word is the parameter, the macro is untouched elsewhere
         [d_m1, deffn("def-fn1-param-named-like-macro", "F", ["M1"], [P("["), Id("M1"), P(","), Id("M1"), WS, P("*"), WS, Id("2"), P("]")]),
          text("call-1", False, call("F", [[Id("8")]]) + [WS, Id("M1")])],
